@@ -666,6 +666,38 @@ def c17_periodic_run(ctx, binp):
     return [dict(kind="predict", settings=settings, fps=fps, model="lepton3", model_events=ev, result=last, scen=scen, ntest=1, expected_motion={})]
 
 
+def prune_runs(ctx, binp):
+    """Beyond the listed properties (Prune.tla): deleteExcessRecordings on a 4 MB tmpfs mounted for the occasion.
+    Returns (events, note); events is None when no file system can be mounted here."""
+    rng = ctx.sub_rng("prune")
+    mnt = ctx.path("prunefs", "x")[:-2]
+    os.makedirs(mnt, exist_ok=True)
+    r = subprocess.run(["mount", "-t", "tmpfs", "-o", "size=4m", "tmpfs", mnt], capture_output=True, text=True)
+    if r.returncode != 0:
+        return None, "no small file system could be mounted (%s)" % (r.stderr.strip()[:120])
+    try:
+        scen = []
+        name = lambda i, ext=".cptv": "202001%02d.000000.000%s" % (i + 1, ext)
+        for k in range(12 if ctx.tier == "quick" else 80):
+            nf = rng.choice([0, 1, 3, 5, 8])
+            sizes = [rng.choice([4, 100, 300, 700]) for _ in range(nf)]
+            others = [dict(Name="notes.txt", KB=rng.choice([0, 1500, 2600, 3000, 3300]))] if rng.random() < 0.7 else []
+            files = [dict(Name=name(i, rng.choice([".cptv", ".cptv", ".cptv.temp"])), KB=kb) for i, kb in enumerate(sizes)]
+            used = sum(f["KB"] for f in files) + sum(o["KB"] for o in others)
+            if used > 3900:        # must fit into the file system
+                files = files[:1]
+            scen.append(dict(Files=files, Others=others))
+        inp, outp = ctx.path("run", "prune.json"), ctx.path("run", "prune.ndjson")
+        json.dump(dict(scenarios=scen), open(inp, "w"))
+        r = subprocess.run([binp, "-test.run", "^TestVerifPrune$"], env=dict(os.environ, VERIF_DIR=mnt, VERIF_SCRIPT=inp, VERIF_OUT=outp),
+                           capture_output=True, text=True, timeout=300)
+        if r.returncode != 0 or not os.path.exists(outp):
+            return None, "prune driver failed: " + (r.stdout + r.stderr)[-300:]
+        return vlib.read_ndjson(outp), None
+    finally:
+        subprocess.run(["umount", mnt], capture_output=True)
+
+
 def c17_reconnect_runs(ctx, binp):
     """C17 across camera reconnects within one daemon run (and a daemon restart on the same output directory is the
     prefiles case of C10): the continuous recorder is set up anew by every handleConn, its directory already exists
